@@ -36,7 +36,10 @@ def seeded():
         if not os.path.exists(mp):
             continue
         m = json.load(open(mp))
-        out.append("| %s | %s | %s | %s | %s |" % (d, m["property"], m["needs_to_manifest"].replace("|", "\\|"), " ".join(m["caught_by_quick_checks"]), notes.get(d, "")))
+        note = notes.get(d, "")
+        if m.get("superseded"):
+            note = (note + " " if note else "") + "SUPERSEDED: " + m["superseded"]
+        out.append("| %s | %s | %s | %s | %s |" % (d, m["property"], m["needs_to_manifest"].replace("|", "\\|"), " ".join(m["caught_by_quick_checks"]), note))
     return "\n".join(out)
 
 def seededsummary():
